@@ -627,6 +627,11 @@ func TestC12(t *testing.T) { //nolint:cyclop
 		if err := vkit.LoadJSON(r.Replay, &c); err != nil {
 			t.Fatalf("cannot load replay: %v", err)
 		}
+		if c.Tie {
+			fmt.Println("REPLAY-NOT-MINE: a coincidence-mode case")
+
+			return
+		}
 		kind, msg := do(&c, "")
 		fmt.Printf("replay %s: kind=%q %s\n", r.Replay, kind, msg)
 		if kind != "" {
